@@ -122,7 +122,6 @@ func TestVerifReplayRender(t *testing.T) {
 	fmt.Printf("REPLAY-CASES fn=%s n=%d\n", fnX, 8*n)
 }
 
-
 // namespaceIsEqual on hand-built entry chains: list (namespace A) -> key level, list (namespace B) -> key level
 func TestVerifReplayNamespace(t *testing.T) {
 	fn := "tree.namespaceIsEqual"
